@@ -281,7 +281,17 @@ func (app *EVMApp) executeKVTx(state *estate.StateDB, tx *etypes.Transaction) (*
 	if err := rlp.DecodeBytes(txData, kvData); err != nil {
 		return nil, err
 	}
-	from, _ := etypes.Sender(app.Signer, tx)
+	from, err := etypes.Sender(app.Signer, tx)
+	if err != nil {
+		return nil, err
+	}
+	// like every other transaction, a key-value transaction takes effect once: only with the
+	// sender's current nonce
+	if nonce := state.GetNonce(from); nonce < tx.Nonce() {
+		return nil, core.ErrNonceTooHigh
+	} else if nonce > tx.Nonce() {
+		return nil, core.ErrNonceTooLow
+	}
 	state.SetNonce(from, state.GetNonce(from)+1)
 	return kvData, nil
 }
